@@ -201,6 +201,9 @@ def check(run):
                 "distinct = (definition text | expression | form set)")
     run.assumptions += ["character-level tokenisation is pyparsing's; the Lean parser works on the token list produced by this harness' renderer",
                         "exprtk evaluation order and number parsing are trusted as observed; formulas are generated in exact dyadic arithmetic so that values compare exactly"]
+    import genlib
+    genlib.validate_modifiers(run, n=run.n(60, 600))
+    genlib.validate_register_each_other(run, n=run.n(12, 80))
     rng = run.rng
     # ---- (A) parse trees ---------------------------------------------------------------------------------------------------
     defs = [gen_multi(rng, rng.randint(0, 3)) for _ in range(run.n(250, 5000))]
